@@ -104,13 +104,16 @@ Section Sim.
              end
          end.
 
+  (* pos_ic = ic[synset1.pos]; pos_ic[ss.id]: a KeyError for a synset of another class *)
+  Definition wt_for (a c : node) : option F := if Z.eqb (cls c) (cls a) then wt c else None.
+
   (* _most_informative_lcs: the lowest common hypernym with the highest weight (first maximal) *)
   Definition most_informative_lcs (a b : node) : res node :=
     match lowest_common_hypernyms hyp fuel a b false with
     | None => Fuel
     | Some [] => WnError
     | Some ls =>
-        match with_key wt ls with
+        match with_key (wt_for a) ls with
         | None => KeyErr
         | Some kv => match argmax_first gt snd kv with
                      | Some c => Val (fst c)
